@@ -253,7 +253,7 @@ Lemma fe_plan_execute_call which vin vout s :
     /\ g_flags g = 80 /\ Z.testbit (g_flags g) 4 = true
     /\ g_rank g = Z.of_nat (length (g_dims g)) /\ g_hrank g = Z.of_nat (length (g_hdims g)).
 Proof.
-  unfold fe_plan_execute, fftw_plan_dft.
+  unfold fe_plan_execute, plan_ctor, fftw_plan_dft.
   destruct (plan_of which (l_sizes (lay vin)) (l_strides (lay vin)) (l_strides (lay vout))) as [d h].
   eexists. split; [reflexivity|]. cbn. auto 10.
 Qed.
@@ -286,7 +286,7 @@ Theorem C15_output_frame_proved :
     length which = length (lay vin) -> length (lay vout) = length (lay vin) ->
     zero_based (lay vin) -> zero_based (lay vout) ->
     l_sizes (lay vout) = l_sizes (lay vin) ->
-    let g := fftw_plan_dft which (base vin) (lay vin) (base vout) (lay vout) s in
+    let g := plan_ctor which (base vin) (lay vin) (base vout) (lay vout) s in
        Permutation (plan_out_addresses g) (footprint vout)
     /\ Permutation (plan_in_addresses g) (footprint vin)
     /\ (forall a, In a (plan_out_addresses g) <->
@@ -294,7 +294,7 @@ Theorem C15_output_frame_proved :
 Proof.
   intros which vin vout s Hw Hl Zi Zo Hs g.
   pose proof (C15_plan_denotes_view_dft_proved which vin vout Hw Hl Zi Zo) as P.
-  subst g. unfold fftw_plan_dft, plan_out_addresses, plan_in_addresses.
+  subst g. unfold plan_ctor, fftw_plan_dft, plan_out_addresses, plan_in_addresses.
   destruct (plan_of which (l_sizes (lay vin)) (l_strides (lay vin)) (l_strides (lay vout))) as [d h].
   destruct P as (P & _). cbn [g_dims g_hdims g_in g_out].
   assert (Po : Permutation (map (fun c : cell => base vout + c_out c) (guru_cells d h)) (footprint vout)).
@@ -317,6 +317,6 @@ Qed.
 Example C15_plan_example :
   let vin := v_rotated (root_view [(0,3);(0,4);(0,5)]) in
   let vout := v_sliced 1 5 (root_view [(0,6);(0,5);(0,3)]) in
-  fftw_plan_dft [true;false;true] (base vin) (lay vin) (base vout) (lay vout) (-1)
+  plan_ctor [true;false;true] (base vin) (lay vin) (base vout) (lay vout) (-1)
   = mkguru 2 [mkiodim 4 5 15; mkiodim 3 20 1] 1 [mkiodim 5 1 3] 0 15 (-1) 80.
 Proof. vm_compute. reflexivity. Qed.
